@@ -10,7 +10,9 @@ Inductive fkind := KSync | KAsync | KGen.
 (* a callable of the scenario: what calling its (decorated) name runs, and what its original body runs *)
 Record fdef := { f_kind : fkind;
                  f_wrapper : pargs -> pkwargs -> prog value;
-                 f_body : pargs -> pkwargs -> prog value }.
+                 f_body : pargs -> pkwargs -> prog value;
+                 f_accepts : pargs -> pkwargs -> bool   (* does calling the (decorated) name bind its arguments? a bare generator
+                                                           function rejects a bad call at once, deal's wrapper( *args, **kwargs) never *) }.
 
 Inductive gstate := GNew (p : prog value) | GLive (k : resume -> prog value) | GRunning | GDone.
 Record world := { wst : st; gens : list gstate }.
@@ -32,6 +34,7 @@ Arguments OutOfFuel {A}.
 Definition bad_yield : exn := mk_exn (mk_cls "<yield-outside-generator>" []) [].
 Definition stop_iteration : exn := mk_exn StopIterationC [].
 Definition generator_exit : exn := mk_exn GeneratorExitC [].
+Definition just_started : exn := mk_exn TypeErrorC [VStr "can't send non-None value to a just-started generator"].
 Definition ignored_exit : exn := mk_exn RuntimeErrorC [VStr "generator ignored GeneratorExit"].
 
 (* what `resume` does to a generator that is not suspended at a yield *)
@@ -63,7 +66,9 @@ Section Interp.
           | None => EVal (inr no_such_function) w
           | Some d =>
             match f_kind d with
-            | KGen => let (h, w1) := new_gen (GNew (f_wrapper d a kw)) w in EVal (inl (VGen h)) w1
+            | KGen => if f_accepts d a kw
+                      then let (h, w1) := new_gen (GNew (f_wrapper d a kw)) w in EVal (inl (VGen h)) w1
+                      else EVal (inr (mk_exn TypeErrorC [VStr "call arguments"])) w
             | KSync => match run _ (f_wrapper d a kw) w with
                        | Done r w1 => EVal r w1
                        | Susp _ _ _ => EVal (inr bad_yield) w   (* impossible in Python: `yield` in a plain function makes it a generator *)
@@ -116,7 +121,8 @@ Section Interp.
           | GDone | GRunning => EVal (finished r) w
           | GNew p =>
               match r with
-              | Send _ => go p
+              | Send VNone => go p
+              | Send _ => EVal (GRaise just_started) w      (* can't send non-None value to a just-started generator *)
               | _ => EVal (finished r) (set_gen h GDone w)
               end
           | GLive g => go (g r)
